@@ -250,7 +250,9 @@ func genC14(r *Rng, tier string) *World {
 	trim = func(v Val) Val {
 		switch v.K {
 		case "s":
-			v.S = strings.TrimSpace(v.S)
+			if t := strings.TrimSpace(v.S); t != "" {
+				v.S = t // (a whitespace-only string stays what it is: blank for every front end)
+			}
 		case "l":
 			l := VL()
 			for _, e := range v.L {
